@@ -1288,7 +1288,8 @@ func (s *Scanner) switchToComment() {
 func stateAnyCommentStart(s *Scanner, c byte) state {
 	if c != '#' {
 		// any symbol inline user comment
-		s.annotation = annotationNone
+		// The annotation state is kept: the step the line break returns to decides
+		// whether the line may end here (not inside the rule object of an inline annotation).
 		s.step = stateInlineComment
 		// The byte is passed on: a line break directly after `#` ends the
 		// (empty) comment instead of becoming its first byte.
